@@ -78,7 +78,10 @@ fn unknown_table(parser: &mut Parser, open_tag: Range<usize>) {
     loop {
         match parser.nth(0).kind {
             Kind::RBrace if parser.nth_raw(1) == parser.raw_range(open_tag.clone()) => {
-                assert!(parser.eat(Kind::RBrace) && parser.eat(Kind::Ident));
+                // the closing tag has the same text as the opening tag, which
+                // was tag-like; it is not necessarily an identifier ('mark',
+                // 'name' and 'flag' are keywords).
+                assert!(parser.eat(Kind::RBrace) && parser.eat(TokenSet::TAG_LIKE));
                 parser.expect_semi();
                 break;
             }
